@@ -7,7 +7,7 @@ Import ListNotations.
 Theorem C04_pratt_correct : forall (op : Type) lbp rbpL nudR conflict (t : tree op) b rest fuel,
   img op lbp rbpL nudR conflict b t -> edge op lbp rbpL nudR t rest -> halts op lbp b rest ->
   fuel >= 2 * size op t + 1 ->
-  expr op lbp rbpL nudR conflict fuel b (lin op t ++ rest) = Some (t, rest).
+  expr op lbp rbpL nudR conflict fuel b (lin op t ++ rest) = Ok (t, rest).
 Proof. exact pratt_correct. Qed.
 Print Assumptions C04_pratt_correct.
 
